@@ -142,6 +142,19 @@ def offsets_oracle(ctx):
         if b.value != want:
             return Failure("C14/rawcopy/build-offsets", "while building, offset1/offset2/length/data were observed as %s, expected %s | spec=%s value=%s" % (
                 b.value[len(pre) + n:].hex(), want[len(pre) + n:].hex(), short(spec, 400), short(value)))
+        # a record PARSED somewhere else and re-used for building: what is reported describes this build, not the old parse
+        shifted = C.Struct("junk" / C.Bytes(len(pre) + 2), "rc" / C.RawCopy(inner))
+        ps = call(shifted.parse, b"zz" + pre + ib.value, **params)
+        if ps.ok and ps.value.rc.data == ib.value:
+            for drop in ((), ("data",), ("value",)):
+                rec = C.Container(ps.value.rc)
+                for key in drop:
+                    del rec[key]
+                o = call(con.build, dict(pre=pre, rc=rec), **params)
+                ctx.record([case, "parsed-record", list(drop)], True, ["offsets/parsed-record-rebuilt"])
+                if not o.ok or o.value != want:
+                    return Failure("C14/rawcopy/build-offsets-stale", "a record parsed at offset %d (without %s) re-used for building at offset %d: built %r, expected %s | spec=%s value=%s" % (
+                        len(pre) + 2, list(drop), len(pre), o, want.hex(), short(spec, 400), short(value)))
         # build_file must agree (RawCopy reads the stream back)
         d = tempfile.mkdtemp(prefix="c14_")
         try:
